@@ -194,9 +194,25 @@ def commonPointPair (r1 r2 : IntTy) (u1 u2 : PtUnit) (v1 v2 : Int) : Res (Int ×
   | .ub w, _ => ⟨.ub w, a.wrapped, a.narrowed⟩
   | _, .ub w => ⟨.ub w, a.wrapped || b.wrapped, a.narrowed || b.narrowed⟩
 
+/-- Overload resolution of a binary operator on two `QuantityPoint`s considers the hidden friends of both
+classes, hence evaluates `QuantityPoint<Ut,Rt>::should_enable_implicit_construction_from<Uo,Ro>()`
+(quantity_point.hh:73-79): `decltype(declval<Quantity<Uo,Ro>>() + origin_displacement(Ut{}, Uo{}))`.  When the
+displacement is not `ZERO` this is a mixed-unit `operator+` whose policy `static_assert` (in a function with
+deduced return type) is a hard error, not a substitution failure. -/
+def pointLookupOk (r1 r2 : IntTy) (u1 u2 : PtUnit) : Bool :=
+  let one (ro : IntTy) (ut uo : PtUnit) : Bool :=
+    match (originsEqual ut uo).val with
+    | .ok true => true
+    | .ok false =>
+      let ud := dispUnit ut uo
+      commonCompiles ro originRep (URat.ratioL uo.scale ud) (URat.ratioR uo.scale ud)
+    | .ub _ => false
+  one r2 u1 u2 && one r1 u2 u1
+
 def pointOpsCompile (r1 r2 : IntTy) (u1 u2 : PtUnit) : Bool :=
   let c := IntTy.common r1 r2
   let cu := commonPointUnit u1 u2
+  pointLookupOk r1 r2 u1 u2 &&
   explicitCompiles r1 c u1 u1 && explicitCompiles r2 c u2 u2 && implicitCompiles c u1 cu && implicitCompiles c u2 cu
 
 /-- `p1 op p2` for the six comparison operators. -/
@@ -206,14 +222,35 @@ def cmpPoints (op : CmpOp) (r1 r2 : IntTy) (u1 u2 : PtUnit) (v1 v2 : Int) : Res 
   | .ok (x, y) => ⟨.ok (op.eval x y), p.wrapped, p.narrowed⟩
   | .ub w => ⟨.ub w, p.wrapped, p.narrowed⟩
 
-/-- `p1 - p2`: a `Quantity` of the common point unit, rep `decltype(R{} - R{})`. -/
+/-- `p1 - p2`: the same-type friend `Diff operator-(QuantityPoint a, QuantityPoint b) { return a.x_ - b.x_; }`
+returns `Diff = Quantity<Unit, R>`: the difference is computed in `decltype(R{} - R{})` and then converted
+back to `R` through the implicit constructor (integer-promotion carve-out) — a narrowing for 8/16-bit `R`. -/
 def subPoints (r1 r2 : IntTy) (u1 u2 : PtUnit) (v1 v2 : Int) : Res Int :=
+  let c := IntTy.common r1 r2
   let p := commonPointPair r1 r2 u1 u2 v1 v2
   match p.val with
   | .ok (x, y) =>
-    let s := subIn (IntTy.common r1 r2).promote x y
-    ⟨s.val, p.wrapped || s.wrapped, p.narrowed⟩
+    let s := andThen (liftStep (subIn c.promote x y)) fun z => repCast c.promote c z
+    ⟨s.val, p.wrapped || s.wrapped, p.narrowed || s.narrowed⟩
   | .ub w => ⟨.ub w, p.wrapped, p.narrowed⟩
+
+/-- `p1 <=> p2` = `p1.in(U{}) <=> p2.in(U{})`, `U = CommonPointUnitT<U1, U2>` (quantity_point.hh:389-394,
+C++20): each operand through the *implicit-rep* conversion in its own rep, then the built-in `<=>`. -/
+def spaceshipPoints (r1 r2 : IntTy) (u1 u2 : PtUnit) (v1 v2 : Int) : Res Ordering :=
+  let cu := commonPointUnit u1 u2
+  let p := IntTy.uac r1 r2
+  let a := inImplicit r1 u1 cu v1
+  let b := inImplicit r2 u2 cu v2
+  match a.val, b.val with
+  | .ok x, .ok y =>
+    ⟨.ok (compare (p.wrap x) (p.wrap y)), a.wrapped || b.wrapped,
+      a.narrowed || b.narrowed || decide (p.wrap x ≠ x) || decide (p.wrap y ≠ y)⟩
+  | .ub w, _ => ⟨.ub w, a.wrapped, a.narrowed⟩
+  | _, .ub w => ⟨.ub w, a.wrapped || b.wrapped, a.narrowed || b.narrowed⟩
+
+def spaceshipCompiles (r1 r2 : IntTy) (u1 u2 : PtUnit) : Bool :=
+  let cu := commonPointUnit u1 u2
+  pointLookupOk r1 r2 u1 u2 && implicitCompiles r1 u1 cu && implicitCompiles r2 u2 cu
 
 /-! ### Statement-level side conditions -/
 
